@@ -241,8 +241,18 @@ def run_lines(cmd, lines, env=None, timeout=900, per_line_crash="crash"):
             got = r.stdout.splitlines()
             rc, err = r.returncode, r.stderr
         except subprocess.TimeoutExpired as ex:
-            got = (ex.stdout or b"").decode(errors="replace").splitlines() if isinstance(ex.stdout, bytes) else (ex.stdout or "").splitlines()
+            text = (ex.stdout or b"").decode(errors="replace") if isinstance(ex.stdout, bytes) else (ex.stdout or "")
+            if text and not text.endswith("\n"):
+                text = text[:text.rfind("\n") + 1]          # the line being written when the process was killed is not an answer
+            got = text.splitlines()
             rc, err = -999, "timeout after %ds" % timeout
+            if got:
+                # the batch as a whole ran out of time (a loaded machine) but made progress: keep the complete answers and
+                # go on with the rest in a fresh process; only a line that makes no progress at all is reported as stalled
+                got = got[:n - pos]
+                outs.extend(got)
+                pos += len(got)
+                continue
         if rc == 0 and len(got) >= n - pos:
             outs.extend(got[:n - pos])
             break
